@@ -1,7 +1,9 @@
-(* C17 (IPP part) - checker over OBSERVATIONS of the real ipp service.
-   [violations] judges the implementation's own reply and event against the request
-   that was ENCODED (the structured message [c_msg], never the model's decoding of it);
-   [mismatches] compares the observation with the model of the code as it is. *)
+(* C17 (IPP part) - checker over OBSERVATIONS of the real ipp service: the public path
+   (HTTP POST: reply body and ipp.* event fields) and the hook path (services/ipp/
+   verif_hooks.go: ippMsg.decode as plain data, the package's encoders, ippHandler).
+   [violations] judges the implementation's own decoding, reply and event against the
+   request that was ENCODED (the structured message [c_msg], never the model's decoding
+   of it); [mismatches] compares every observation with the model of the code. *)
 From HT Require Import Common.Bytes C17.Model C17.IppModel.
 Open Scope Z_scope.
 
@@ -14,13 +16,24 @@ Inductive iobs :=
 | OReply (body uri user job : bytes) (data : dobs)
 | ONoReply | OPanic | OHang.
 
+(* ipp.VerifDecode(raw): what ippMsg.decode built (document as [dobs]), or its error *)
+Inductive decobs :=
+| DMsg (m : msg) (data : dobs)
+| DErr | DPanic | DHang.
+
 Record icase := mkICase {
   c_id : N;
   c_structured : bool;   (* the request is [enc_request] of [c_msg] with document [c_doc] *)
   c_msg : msg;           (* the message that was encoded (document left empty here) *)
   c_head : bytes;        (* the bytes sent, without the document *)
   c_doc : doc;
-  c_obs : iobs }.
+  c_obs : iobs;          (* public path *)
+  c_dec : decobs;        (* hook: VerifDecode of the same bytes *)
+  c_enc : option bytes;  (* hook: VerifEncode of [c_msg] (structured requests) *)
+  c_hfmt : bytes;        (* hook: format field of VerifHandler's response *)
+  c_hsame : bool         (* hook: VerifHandler's encoded response, uri, user, jobname and
+                            data are those of the public path (compared by the harness) *)
+}.
 
 Definition no_msg : msg := mkMsg 0 0 0 0 [] [].
 
@@ -59,26 +72,78 @@ Definition data_ok (expect : bytes) (o : dobs) : bool :=
 
 Definition raw_of (c : icase) : bytes := c_head c ++ doc_bytes (c_doc c).
 
-(* ---- correspondence: model of the code as it is vs the observation ---- *)
+(* ---- structural equality of messages ---- *)
+Fixpoint list_eqb {A} (e : A -> A -> bool) (a b : list A) : bool :=
+  match a, b with
+  | [], [] => true
+  | x :: a', y :: b' => e x y && list_eqb e a' b'
+  | _, _ => false
+  end.
+
+Definition attr_eqb (a b : attr) : bool :=
+  match a, b with
+  | AInt t n v, AInt t' n' v' => (t =? t') && beq n n' && list_eqb Z.eqb v v'
+  | AStr t n v, AStr t' n' v' => (t =? t') && beq n n' && list_eqb beq v v'
+  | ABool t n v, ABool t' n' v' => (t =? t') && beq n n' && list_eqb Bool.eqb v v'
+  | ARange t n l h, ARange t' n' l' h' => (t =? t') && beq n n' && (l =? l') && (h =? h')
+  | _, _ => false
+  end.
+
+Definition group_eqb (a b : group) : bool :=
+  (g_tag a =? g_tag b) && list_eqb attr_eqb (g_attrs a) (g_attrs b).
+
+(* header and groups (the document is compared through [data_ok]) *)
+Definition msg_eqb (a b : msg) : bool :=
+  (m_maj a =? m_maj b) && (m_min a =? m_min b) && (m_op a =? m_op b) && (m_reqid a =? m_reqid b)
+  && list_eqb group_eqb (m_groups a) (m_groups b).
+
+(* ---- correspondence: model of the code vs the observations ---- *)
 Definition obs_matches (m : hres) (o : iobs) : bool :=
   match m, o with
   | HReply b u us j d, OReply b' u' us' j' d' =>
       beq b b' && beq u u' && beq us us' && beq j j' && data_ok d d'
   | HNoReply, ONoReply => true
-  | HPanic, OPanic => true
   | HHang, OHang => true
   | _, _ => false
   end.
 
-Definition model_obs (c : icase) : hres :=
-  let raw := raw_of c in handler as_coded (fuel_for raw) raw.
+Definition dec_matches (m : res msg) (o : decobs) : bool :=
+  match m, o with
+  | ROk a, DMsg b d => msg_eqb a b && data_ok (m_data a) d
+  | RErr, DErr => true
+  | RFuel, DHang => true
+  | _, _ => false
+  end.
 
-(* the bytes sent must be the specification encoding of the structured message *)
+Definition model_dec (c : icase) : res msg :=
+  let raw := raw_of c in dec_msg (fuel_for raw) raw.
+
+Definition model_obs (c : icase) : hres :=
+  match model_dec c with
+  | ROk body => handle_msg body
+  | RErr => HNoReply
+  | RFuel => HHang
+  end.
+
+Definition model_fmt (c : icase) : bytes :=
+  match model_dec c with
+  | ROk body => pj_format (snd (response_of body))
+  | _ => []
+  end.
+
+(* the bytes sent must be the specification encoding of the structured message, and so
+   must be what the package's own encoders produce for it *)
 Definition head_ok (c : icase) : bool :=
   negb (c_structured c) || beq (enc_msg (c_msg c)) (c_head c).
+Definition enc_ok (c : icase) : bool :=
+  match c_enc c with Some b => beq (enc_msg (c_msg c)) b | None => true end.
 
 Definition mismatches (cs : list icase) : list N :=
-  map c_id (filter (fun c => negb (head_ok c && obs_matches (model_obs c) (c_obs c))) cs).
+  map c_id (filter (fun c => negb (head_ok c && enc_ok c
+                                   && dec_matches (model_dec c) (c_dec c)
+                                   && obs_matches (model_obs c) (c_obs c)
+                                   && beq (model_fmt c) (c_hfmt c)
+                                   && c_hsame c)) cs).
 
 (* ---- the property on the implementation's own observation ---- *)
 (* the first operation group of the request as encoded *)
@@ -118,14 +183,18 @@ Definition SIG_NOREPLY := 3%N.
 Definition SIG_ECHO := 4%N.      (* reply does not echo version / request id / charset / language *)
 Definition SIG_FIELDS := 5%N.    (* print job: printer URI, user or job name changed *)
 Definition SIG_DOC := 6%N.       (* document in the event differs from the one sent *)
+Definition SIG_DECODE := 7%N.    (* ippMsg.decode did not build what was encoded *)
+Definition SIG_ENCODE := 8%N.    (* the package's encoders disagree with the specification encoding *)
+Definition SIG_HOOK := 9%N.      (* ippHandler's response differs from what the service sent *)
 Definition SIG_CLASS_BOOL := 10%N.
 Definition SIG_CLASS_RANGE := 11%N.
 Definition SIG_CLASS_PJ_NONSTR := 12%N.
+Definition SIG_CLASS_INT3 := 13%N.
 Definition SIG_RAW_HANG := 20%N.
 Definition SIG_RAW_PANIC := 21%N.
 
-(* clause of the property that the observation fails; 0 = none *)
-Definition clause_sig (m : msg) (d : bytes) (o : iobs) : N :=
+(* clause of the property that the observations fail; 0 = none *)
+Definition reply_sig (m : msg) (d : bytes) (o : iobs) : N :=
   match o with
   | OHang => SIG_HANG
   | OPanic => SIG_PANIC
@@ -140,10 +209,32 @@ Definition clause_sig (m : msg) (d : bytes) (o : iobs) : N :=
       else 0%N
   end.
 
-(* input classes of the pinned findings (judged on the request, not on the outcome) *)
+(* "decodes to the operation, request id, attributes and document that were encoded" *)
+Definition decode_sig (m : msg) (d : bytes) (o : decobs) : N :=
+  match o with
+  | DHang => SIG_HANG
+  | DPanic => SIG_PANIC
+  | DErr => SIG_DECODE
+  | DMsg m' data => if msg_eqb m m' && data_ok d data then 0%N else SIG_DECODE
+  end.
+
+Definition clause_sig (c : icase) : N :=
+  let m := c_msg c in
+  let d := doc_bytes (c_doc c) in
+  let s := decode_sig m d (c_dec c) in
+  if negb (s =? 0)%N then s else
+  let s := reply_sig m d (c_obs c) in
+  if negb (s =? 0)%N then s else
+  if negb (enc_ok c) then SIG_ENCODE else
+  if negb (c_hsame c) then SIG_HOOK else 0%N.
+
+(* input classes of the former findings (all repaired in /repo; judged on the request, not
+   on the outcome; the codes are kept so that a regression is named) *)
 Definition is_bool (a : attr) : bool := match a with ABool _ _ _ => true | _ => false end.
 Definition is_range (a : attr) : bool := match a with ARange _ _ _ _ => true | _ => false end.
 Definition is_strattr (a : attr) : bool := match a with AStr _ _ _ => true | _ => false end.
+Definition is_int3 (a : attr) : bool :=
+  match a with AInt _ _ v => Nat.ltb 2 (length v) | _ => false end.
 Definition any_attr (p : attr -> bool) (m : msg) : bool :=
   existsb (fun g => existsb p (g_attrs g)) (m_groups m).
 
@@ -151,18 +242,19 @@ Definition class_sig (m : msg) : N :=
   if any_attr is_bool m then SIG_CLASS_BOOL
   else if any_attr is_range m then SIG_CLASS_RANGE
   else if (m_op m =? OP_PRINT_JOB) && negb (forallb is_strattr (first_op_attrs m)) then SIG_CLASS_PJ_NONSTR
+  else if any_attr is_int3 m then SIG_CLASS_INT3
   else 0%N.
 
 Definition case_sig (c : icase) : N :=
   if c_structured c then
-    let s := clause_sig (c_msg c) (doc_bytes (c_doc c)) (c_obs c) in
+    let s := clause_sig c in
     if (s =? 0)%N then 0%N
     else let k := class_sig (c_msg c) in if (k =? 0)%N then s else k
   else
-    match c_obs c with
-    | OHang => SIG_RAW_HANG
-    | OPanic => SIG_RAW_PANIC
-    | _ => 0%N
+    match c_obs c, c_dec c with
+    | OHang, _ | _, DHang => SIG_RAW_HANG
+    | OPanic, _ | _, DPanic => SIG_RAW_PANIC
+    | _, _ => 0%N
     end.
 
 Definition violations (cs : list icase) : list (N * N) :=
